@@ -424,6 +424,15 @@ func runC11(cases string, res *Result) {
 		} else {
 			out, class, spy, det = c11RunCase(c)
 			c["readable"] = evalCaseSources(c)
+			res.Hist["under-other-engine-settings"]++
+			prep := func(ee *evalEngine) {
+				ee.eng.AddFunction("tick", func(args ...interface{}) (interface{}, error) { return "", nil })
+			}
+			if msg := evalUnderSettings(c, parseContext(c.str("ctx")), prep, out, class); msg != "" {
+				res.add(Finding{Kind: "oracle", Where: stream + "/settings", Case: c, Expected: evalObserved(out, class), Observed: msg,
+					Detail: "engine settings that have nothing to do with include change what the template renders"})
+				return
+			}
 		}
 		res.Evaluations++
 		res.Hist["class:"+class]++
